@@ -373,18 +373,21 @@ def run_harness(family, cases, timeout=3000, case_timeout='20s', jobs=1):
 # ----------------------------------------------------------- known findings
 
 def load_findings(pid):
-    """Entries of kind "finding" for the property, from known_findings.json and
-    known_findings/<pid>.json (both committed, never written at run time)."""
+    """Entries of kind "finding" for the property: known_findings/<pid>.json when it
+    exists (the hand-maintained source), else the consolidated known_findings.json
+    (generated from those files by lib/findings.py). Both are committed and never
+    written at run time."""
     ents = []
     for path in (os.path.join(ROOT, 'known_findings', pid + '.json'), os.path.join(ROOT, 'known_findings.json')):
         try:
             d = json.load(open(path))
         except OSError:
             continue
-        ents.extend(d.get('entries', []))
+        ents = d.get('entries', [])
+        break
     out, seen = [], set()
     for e in ents:
-        if e.get('property') == pid and e.get('kind') == 'finding' and e.get('id') not in seen:
+        if e.get('property', pid) == pid and e.get('kind') == 'finding' and e.get('id') not in seen:
             seen.add(e.get('id'))
             out.append(e)
     return out
